@@ -32,7 +32,10 @@ from . import leanrun
 from .rng import Rng
 
 VERIF = leanrun.VERIF
-EVIDENCE = os.path.join(VERIF, "evidence")
+# evidence/ describes runs against /repo only: a self-test run against a scratch worktree (LUNA_VERIF_REPO, used
+# by tools/seedtest.py) writes its evidence next to the replays instead of overwriting the registered run's file
+EVIDENCE = os.path.join(VERIF, "evidence" if os.environ.get("LUNA_VERIF_REPO", "/repo") == "/repo"
+                        else os.path.join("replays", "selftest-evidence"))
 REPLAYS = os.path.join(VERIF, "replays")
 CORPUS = os.path.join(VERIF, "corpus")
 FINDINGS = os.path.join(VERIF, "KNOWN_FINDINGS.jsonl")
